@@ -137,7 +137,7 @@ func (c C20) Run(t *tape.Tape, opt core.RunOpt) (res core.Result) {
 		w.ResolverReenters = 1 + t.Draw(2)
 		res.Count("probe_subscription_resolver_calls_the_registry", 1)
 	}
-	family := t.Draw(5)
+	family := t.Draw(6)
 	nextSid, nextEv := 1, 1
 	newSub := func(topic string) *workload.SimSub {
 		sb := &workload.SimSub{ID: nextSid, Topic: topic, SelIndex: t.Draw(len(workload.SubSelections)), Alias: t.Bool(1, 3), Named: t.Bool(1, 3), UseVar: t.Bool(1, 2)}
@@ -188,6 +188,26 @@ func (c C20) Run(t *tape.Tape, opt core.RunOpt) (res core.Result) {
 			plans = append(plans, []c20Op{{Kind: "pub", Topic: "a", N: nextEv}})
 			nextEv++
 		}
+	case 5: // a crowd: one publish matches sixteen subscribers and more, several of them fail
+		n := 16 + t.Draw(6)
+		for i := 0; i < n; i++ {
+			sb := newSub("a")
+			sb.FailFrom, sb.Dropped, sb.ByValue = 0, false, false
+			if i%5 == 2 {
+				sb.FailFrom, sb.Dropped = 1, true
+			}
+			pre = append(pre, sb.ID)
+		}
+		plans = append(plans, []c20Op{{Kind: "pub", Topic: "a", N: nextEv}})
+		nextEv++
+		if t.Bool(1, 2) {
+			plans = append(plans, []c20Op{{Kind: "pub", Topic: "a", N: nextEv}})
+			nextEv++
+		}
+		if t.Bool(1, 2) {
+			plans = append(plans, []c20Op{{Kind: "unsub", Topic: "a"}})
+		}
+		res.Count("probe_publish_matching_sixteen_or_more", 1)
 	case 1: // two publishers failing on the same subscriber
 		sb := newSub("b")
 		sb.FailFrom, sb.Dropped = 1, true
@@ -247,6 +267,13 @@ func (c C20) Run(t *tape.Tape, opt core.RunOpt) (res core.Result) {
 					if d < 2 {
 						d = 2
 					}
+				}
+				if t.Bool(1, 8) {
+					// a request the root refuses before it resolves anything (an
+					// operation name the document does not have): no registry call,
+					// but what it is answered must stay its own
+					ops = append(ops, c20Op{Kind: "bad", N: nextEv})
+					continue
 				}
 				switch d {
 				case 0, 1:
@@ -320,6 +347,8 @@ func (c C20) Run(t *tape.Tape, opt core.RunOpt) (res core.Result) {
 					cl.Resp = w.PublishViaMutation(o.Topic, o.N)
 				case "unsub":
 					cl.Cnt = w.Root.Unsubscribe(o.Topic)
+				case "bad":
+					cl.Resp = workload.CanonLite(w.Root.ResolveString("query A { ping } query B { ping }", "NoSuchOperation", nil))
 				}
 				cl.Ret = s.Stamp("return|"+o.String(), "call")
 				calls[ti] = append(calls[ti], cl)
@@ -498,6 +527,11 @@ func c20Analyse(res *core.Result, w *workload.SubWorld, s *sched.Sched, pre []in
 			}
 		}
 		return m, true
+	}
+	for _, cl := range all {
+		if cl.Op.Kind == "bad" && (!strings.Contains(cl.Resp, `"errors"`) || !strings.Contains(cl.Resp, `"data":null`)) {
+			res.Violate("C20", "refused_request_answered_wrongly", fmt.Sprintf("a request for an operation the document does not have was answered %s", cl.Resp), nil)
+		}
 	}
 	gapSub, gapUnsubFailed, twoFailed := 0, 0, 0
 	for _, cl := range all {
@@ -739,6 +773,8 @@ func c20Linearizable(res *core.Result, w *workload.SubWorld, pre []int, all []*c
 	var ops []porcupine.Operation
 	for _, cl := range all {
 		switch cl.Op.Kind {
+		case "bad":
+			continue // not a registry call
 		case "sub":
 			ops = append(ops, porcupine.Operation{ClientId: cl.Task, Input: linIn{Kind: "sub", Sid: cl.Op.Sid}, Call: int64(cl.Inv) * 4, Output: 0, Return: int64(cl.Ret) * 4})
 		case "unsub":
